@@ -24,6 +24,7 @@
 #include <atomic>
 #include <cerrno>
 #include <chrono>
+#include <condition_variable>
 #include <csignal>
 #include <cassert>
 #include <cstdint>
@@ -263,11 +264,33 @@ public:
   /// \brief Stop I/O thread and release resources.
   void stop() override
   {
+    std::unique_lock<std::mutex> lk(_stopMutex);
     bool exp = true;
     if (!_running.compare_exchange_strong(exp, false))
     {
+      // Not running. If another thread's stop() is still joining the I/O thread
+      // (shutdownDrain may still be firing callbacks), wait for it so that no
+      // callback runs after this call returns. A call made on that I/O thread
+      // (from a callback) must not wait for its own exit.
+      if (std::this_thread::get_id() != _stoppingLoop)
+      {
+        _stopCv.wait(lk, [this] { return _stoppingLoop == std::thread::id(); });
+      }
       return;
     }
+    _stoppingLoop = _loop.get_id();
+    lk.unlock();
+    // Cleared on every exit (join() may throw) so that waiters are released.
+    struct StopDone
+    {
+      TcpEngine &e;
+      ~StopDone()
+      {
+        std::lock_guard<std::mutex> g(e._stopMutex);
+        e._stoppingLoop = std::thread::id();
+        e._stopCv.notify_all();
+      }
+    } done{*this};
     enqueue(Command::shutdown());
     if (_loop.joinable())
     {
@@ -2864,6 +2887,13 @@ private:
   // without revisiting this invariant.
   int _epollFd{-1}, _eventFd{-1}, _timerFd{-1};
   std::thread _loop;
+  // Concurrent stop() callers: the caller that wins the _running CAS records the
+  // I/O thread it is about to join in _stoppingLoop (under _stopMutex) and
+  // clears it after the join; a caller that loses the CAS waits on _stopCv until
+  // it is cleared. _stopMutex is a leaf and is NOT held across the join.
+  std::mutex _stopMutex;
+  std::condition_variable _stopCv;
+  std::thread::id _stoppingLoop;
   // Deferred self-destruct deleter (delete-this-at-thread-end). Written and read
   // ONLY on the I/O thread (set in scheduleSelfDestruct pre-detach; run in the
   // loop-lambda epilogue post-loop()); no synchronization — see EngineBase.
